@@ -1,5 +1,6 @@
-(* C03 — a concrete run of the loop model: the witness of the defect the
-   model found in the unchanged code (F110, open) and the control run.
+(* C03 — concrete runs of the loop model: why the re-query test needs the
+   stop hash (F110, repaired): the run of the code before the repair
+   ([c_height_only := true]) and the runs of the repaired code.
    Every answer of a peer is built with the ground-truth functions of
    LoopSpec (tcps, tmsg): both peers are honest. *)
 From stdpp Require Import gmap list.
@@ -21,8 +22,9 @@ Definition chainC : list Z := take 1000 chainA ++ [900011; 900012].
 
 Definition thd0 : Z := thd wH wfh chainA 0.
 Definition a0 : alog2 := {| abl := chainA; afl := [thd0] |}.
-Definition cfg (legacy : bool) : lcfg :=
-  {| c_hard := fun _ => None; c_cp := None; c_genesis := thd0; c_legacy := legacy |}.
+Definition cfg (height_only : bool) : lcfg :=
+  {| c_hard := fun _ => None; c_cp := None; c_genesis := thd0; c_legacy := false;
+     c_height_only := height_only |}.
 Definition noenv : denv :=
   {| e_filters := fun _ => []; e_hdr_ok := fun _ => true; e_block_ok := fun _ => true;
      e_fo := fun _ => {| fo_hash := fun _ => 0; fo_verify := fun _ => Some 0 |} |}.
@@ -44,17 +46,25 @@ Definition summary (s : lstate) : Z * list Z * Z * Z :=
 Definition evs_f110 : list lev :=
   [ ERound (rd [hon_cpans 1 chainA; hon_cpans 2 chainA] [] []);          (* the fetch times out *)
     EChain 998 [900001; 900002] false;
-    ERound (rd [] [] [hon_arr 1 chainB 0 0 1000; hon_arr 2 chainB 0 0 1000]) ].
+    ERound (rd [hon_cpans 1 chainB; hon_cpans 2 chainB] [] [hon_arr 1 chainB 0 0 1000; hon_arr 2 chainB 0 0 1000]) ].
 
+(* before the repair: the lists of the old branch are used again *)
 Lemma f110_run :
   abl (chain_event a0 998 [900001; 900002]) = chainB /\
-  summary (lrun wH (cfg false) (linit a0 [1; 2] false) evs_f110) = (21, [1; 2], 0, 1000) /\
-  louts wH (cfg false) (linit a0 [1; 2] false) evs_f110 =
+  summary (lrun wH (cfg true) (linit a0 [1; 2] false) evs_f110) = (21, [1; 2], 0, 1000) /\
+  louts wH (cfg true) (linit a0 [1; 2] false) evs_f110 =
     [(3, Some 1100, []); (3, None, [1; 2])].
 Proof. vm_compute. done. Qed.
 
-(* the same history with a reorganisation that makes the chain longer: the
-   lists are fetched again, nobody is banned, the interval is committed *)
+(* repaired: the stop hash differs, the lists are fetched again *)
+Lemma f110_fixed_run :
+  summary (lrun wH (cfg false) (linit a0 [1; 2] false) evs_f110) = (0, [], 1000, 1000) /\
+  louts wH (cfg false) (linit a0 [1; 2] false) evs_f110 =
+    [(3, Some 1100, []); (3, Some 900002, [])].
+Proof. vm_compute. done. Qed.
+
+(* before the repair, a reorganisation that makes the chain longer: the
+   height test alone fetches the lists again *)
 Definition evs_f110_longer : list lev :=
   [ ERound (rd [hon_cpans 1 chainA; hon_cpans 2 chainA] [] []);
     EChain 999 [900011; 900012] false;
@@ -62,7 +72,7 @@ Definition evs_f110_longer : list lev :=
 
 Lemma f110_longer_run :
   abl (chain_event a0 999 [900011; 900012]) = chainC /\
-  summary (lrun wH (cfg false) (linit a0 [1; 2] false) evs_f110_longer) = (0, [], 1000, 1001).
+  summary (lrun wH (cfg true) (linit a0 [1; 2] false) evs_f110_longer) = (0, [], 1000, 1001).
 Proof. vm_compute. done. Qed.
 
 End W.
